@@ -102,10 +102,42 @@ def creditFor (es : List String) (i : Nat) : Nat :=
       | _ => acc
     | _ => acc) 0
 
+/-- an arrival in the middle of a poll: when client `a`'s reply stream has handed over `k` results, `bytes` arrive for `b` -/
+structure Trig where
+  a : Nat
+  k : Nat
+  b : Nat
+  bytes : List Rx.Byte
+
+def parseTrig (t : String) : Option Trig :=
+  match (t.drop 1).toString.splitOn ":" with
+  | [a, k, b, bytes] => some { a := a.toNat!, k := k.toNat!, b := b.toNat!, bytes := decBytes bytes }
+  | _ => none
+
+/-- one poll of the server, iteration by iteration, with the arrivals that are due after each iteration -/
+partial def pollTrig (C : Rx.Consts) (sizes : Nat → Nat) (trigs : List Trig) (s : Srv.S) (fuel : Nat) : Srv.S × List Trig :=
+  if fuel = 0 then (s, trigs) else
+  match iter C sizes s with
+  | none => (s, trigs)
+  | some s' =>
+    let usedOf (a : Nat) : Nat := match s'.all.find? (·.id == a) with | some c => c.used | none => 0
+    let due := trigs.filter fun (t : Trig) => Nat.ble t.k (usedOf t.a)
+    let rest := trigs.filter fun (t : Trig) => !Nat.ble t.k (usedOf t.a)
+    let s'' := due.foldl (fun s t => step C sizes s (.arrive t.b t.bytes)) s'
+    pollTrig C sizes rest s'' (fuel - 1)
+
+def runTrig (C : Rx.Consts) (sizes : Nat → Nat) (trigs : List Trig) (evs : List Srv.Ev) : Srv.S :=
+  (evs.foldl (fun (st : Srv.S × List Trig) ev =>
+    match ev with
+    | .run _ => pollTrig C sizes st.2 st.1 100000
+    | ev => (step C sizes st.1 ev, st.2)) (Srv.init, trigs)).1
+
 def handle (ts : List String) : String :=
   let (_, r0) := splitAt "D" ts
   let (ds, r1) := splitAt "E" r0
-  let (es, obs) := splitAt "=>" r1
+  let (es0, obs) := splitAt "=>" r1
+  let trigToks := es0.filter (·.startsWith "t")
+  let es := es0.filter (fun t => !t.startsWith "t")
   let C := DriverRx.consts
   match ds.mapM parseDecl with
   | none => "bad-decl"
@@ -118,7 +150,9 @@ def handle (ts : List String) : String :=
     | some evs =>
       -- `W1`: the harness polled the server only when its waker had been woken; the model does the same
       -- (`C08_wake_driven`: the states are those of the eager run)
-      let w := if ts.contains "W1" then runW C (fun _ => 1000000000) evs initW else { s := runEvs C (fun _ => 1000000000) evs Srv.init, woken := false, stalled := false }
+      let trigs := trigToks.filterMap parseTrig
+      let w := if !trigs.isEmpty then { s := runTrig C (fun _ => 1000000000) trigs evs, woken := false, stalled := false }
+        else if ts.contains "W1" then runW C (fun _ => 1000000000) evs initW else { s := runEvs C (fun _ => 1000000000) evs Srv.init, woken := false, stalled := false }
       if w.stalled then "M stalled | H 1" else
       let s := w.s
       let all := s.all
@@ -158,6 +192,8 @@ def handle (ts : List String) : String :=
       let isStreamer (d : CDecl) : Bool := d.descs.any fun x => match x with | .sub _ _ => true | _ => false
       let h := h && (!(ts.contains "SV1") ||
         SpecSrv.svOK ((decls.filter fun d => !isStreamer d && !d.descs.isEmpty).map (·.id)) ((decls.filter isStreamer).map (·.id)) implG)
+      let h := h && (!(ts.contains "SV2") ||
+        SpecSrv.svMidOK (trigs.map fun t => (t.a, t.k, t.b)) ((decls.filter isStreamer).map (·.id)) implG)
       -- `F2 H<n0>,<n1>,..`: fairness after a history; the first `n_i` calls of client `i` belong to the history, the
       -- clients that were closed are out of the fixed set
       let hist : List Nat := match (ts.takeWhile (· != "D")).find? (fun t => t.startsWith "H") with
